@@ -12,8 +12,8 @@ import (
 type Violation struct {
 	Property string   `json:"property"`
 	Rule     string   `json:"rule"`
-	Sig      string   `json:"sig"`  // stable signature (matched against known findings)
-	Msg      string   `json:"msg"`  // human-readable: expected vs observed
+	Sig      string   `json:"sig"` // stable signature (matched against known findings)
+	Msg      string   `json:"msg"` // human-readable: expected vs observed
 	Harness  string   `json:"harness"`
 	Config   string   `json:"config"`
 	History  []string `json:"history,omitempty"`
